@@ -592,6 +592,8 @@ def emission_tree(fn):
     for n in pf.walk_no_nested(fn):
         if isinstance(n, ast.Name) and n.id == lst and n is not rets[0].value and n is not inits[0].targets[0]:
             p = pf.parent(n)
+            if isinstance(p, ast.Call) and pf.call_name(p) == "len":
+                continue  # reading the current length does not change the emission order
             if not (isinstance(p, ast.Attribute) and p.attr == "append" and isinstance(pf.parent(p), ast.Call)):
                 return None
 
@@ -689,6 +691,257 @@ def rule_emit_order(chk, prog):
 
 
 # ----------------------------------------------------------------------------
+# emit-index: a flat per-feature list is indexed by the emission position
+# ----------------------------------------------------------------------------
+PER_FEATURE = ("ueg_vector", "get_feat_usps", "get_reasonable_normalizer")
+
+
+def _enclosing_fors(node, fn):
+    out = []
+    p = pf.parent(node)
+    child = node
+    while p is not None and p is not fn:
+        if isinstance(p, ast.For) and any(child is s for s in p.body + p.orelse):
+            out.append(p)
+        elif isinstance(p, ast.For) and child is not p.iter and child is not p.target:
+            out.append(p)
+        child, p = p, pf.parent(p)
+    return out  # innermost first
+
+
+def rule_emit_index(chk, prog):
+    for m, cls in prog.subclasses("BaseSettings"):
+        if m.rel != ST:
+            continue
+        for nm in PER_FEATURE:
+            fn = pf.methods(cls).get(nm)
+            if fn is None or emission_tree(fn) is None:
+                continue
+            # flat per-feature lists: L = self.<per-feature method>()[optional slice]
+            flat = {}
+            for n in pf.walk_no_nested(fn):
+                if isinstance(n, ast.Assign) and len(n.targets) == 1 and isinstance(n.targets[0], ast.Name):
+                    v = n.value
+                    if isinstance(v, ast.Subscript) and isinstance(v.slice, ast.Slice):
+                        v = v.value
+                    if isinstance(v, ast.Call) and isinstance(v.func, ast.Attribute) and pf.is_self_attr(v.func) \
+                            and v.func.attr in PER_FEATURE:
+                        flat[n.targets[0].id] = v.func.attr
+            for n in pf.walk_no_nested(fn):
+                if not (isinstance(n, ast.Subscript) and isinstance(n.value, ast.Name) and n.value.id in flat
+                        and isinstance(n.slice, ast.Name) and isinstance(n.ctx, ast.Load)):
+                    continue
+                chain = _enclosing_fors(n, fn)
+                if not chain:
+                    continue
+                idx = n.slice.id
+                qn = "%s.%s" % (cls.name, nm)
+                inst = "%s %s (from %s)" % (qn, pf.src(n), flat[n.value.id])
+                binds, incs = [], []
+                for b in pf.walk_no_nested(fn):
+                    if isinstance(b, ast.Assign) and any(
+                            isinstance(t, ast.Name) and t.id == idx for tt in b.targets for t in ast.walk(tt)):
+                        binds.append(b)
+                    elif isinstance(b, ast.For) and _target_pos(b.target, idx) is not None:
+                        binds.append(b)
+                    elif isinstance(b, ast.AugAssign) and isinstance(b.target, ast.Name) and b.target.id == idx:
+                        if isinstance(b.op, ast.Add) and isinstance(b.value, ast.Constant) and b.value.value == 1:
+                            incs.append(b)
+                        else:
+                            binds.append(b)
+                if not binds:
+                    raise core.AnalysisError("%s: index %s of %s is never bound" % (qn, idx, pf.src(n)))
+                bad = None
+                rets = [r for r in pf.walk_no_nested(fn) if isinstance(r, ast.Return) and isinstance(r.value, ast.Name)]
+                emitted = rets[0].value.id if rets else None
+                for b in binds:
+                    if isinstance(b, ast.Assign) and pf.src(b.value) == "len(%s)" % emitted:
+                        continue  # the emission position itself
+                    anc = _enclosing_fors(b, fn)
+                    shared = [f for f in anc if any(f is c for c in chain)]
+                    if shared:
+                        bad = (b, shared[-1])
+                if bad is not None:
+                    b, outer = bad
+                    how = ("is the target of `for %s in %s`" % (pf.src(b.target), pf.src(b.iter)[:50])
+                           if isinstance(b, ast.For) else "is set by `%s`" % pf.src(b)[:50])
+                    chk.violation("emit-index", ST, qn, pf.src(n), n.lineno,
+                                  "%s indexes the flat per-feature list %s (= self.%s()) but %s %s inside the enclosing "
+                                  "loop `for %s in %s`, so it restarts on every outer iteration while the position of "
+                                  "the appended element keeps growing: from the second outer item on, entry k is built "
+                                  "from the description of another feature" % (
+                                      pf.src(n), n.value.id, flat[n.value.id], idx, how, pf.src(outer.target),
+                                      pf.src(outer.iter)[:40]), instance=inst)
+                    continue
+                plain = [b for b in binds if isinstance(b, ast.Assign) and pf.src(b.value) != "len(%s)" % emitted]
+                if plain and not any(any(f is chain[0] for f in _enclosing_fors(i_, fn)) for i_ in incs):
+                    chk.violation("emit-index", ST, qn, pf.src(n), n.lineno,
+                                  "%s: the counter %s is initialised by `%s` but never advanced inside the loop that "
+                                  "appends the elements" % (pf.src(n), idx, pf.src(plain[0])[:50]), instance=inst)
+                    continue
+                chk.ok("emit-index", inst)
+
+
+# ----------------------------------------------------------------------------
+# rho-mult-theta: the density prefactor of rho_mult="expnt" is computed from theta_params only
+# ----------------------------------------------------------------------------
+class Deps:
+    """flow-sensitive (loops iterated twice) dependency sets of local names on the parameter
+    sources 'theta' (self.theta_params), 'feat' (self.feat_params), 'rho'."""
+
+    def __init__(self, prog, mod, cls, watch):
+        self.prog, self.mod, self.cls, self.watch = prog, mod, cls, watch
+        self.hits = {}  # id(call node) -> (fn qualname, node, deps)
+        self.depth = 0
+
+    def expr(self, e, env):
+        if e is None:
+            return frozenset()
+        if isinstance(e, ast.Name):
+            return env.get(e.id, frozenset())
+        if pf.is_self_attr(e):
+            return frozenset({"theta"}) if e.attr == "theta_params" else (
+                frozenset({"feat"}) if e.attr == "feat_params" else frozenset())
+        if isinstance(e, ast.Call):
+            r = self.call(e, env)
+            if r is not None:
+                return r
+        if isinstance(e, (ast.ListComp, ast.GeneratorExp, ast.SetComp)):
+            env2 = dict(env)
+            for g in e.generators:
+                d = self.expr(g.iter, env2)
+                for t in ast.walk(g.target):
+                    if isinstance(t, ast.Name):
+                        env2[t.id] = d
+            return self.expr(e.elt, env2)
+        out = frozenset()
+        for c in ast.iter_child_nodes(e):
+            if isinstance(c, ast.expr):
+                out |= self.expr(c, env)
+            elif isinstance(c, ast.keyword):
+                out |= self.expr(c.value, env)
+        return out
+
+    def call(self, e, env):
+        f = e.func
+        callee = None
+        args = list(e.args)
+        if isinstance(f, ast.Attribute) and isinstance(f.value, ast.Name):
+            if f.value.id == "self":
+                r = self.prog.find_method(self.mod, self.cls, f.attr)
+                callee = r[2] if r else None
+            elif f.value.id in self.mod.classes and args and isinstance(args[0], ast.Name) and args[0].id == "self":
+                r = self.prog.find_method(self.mod, self.mod.classes[f.value.id], f.attr)
+                callee = r[2] if r else None
+                args = args[1:]
+        if callee is None or self.depth > 4 or any(pf.src(d) == "property" for d in callee.decorator_list):
+            return None
+        params = [a.arg for a in callee.args.args[1:]]
+        env2 = {p: frozenset() for p in params}
+        for p, a in zip(params, args):
+            env2[p] = self.expr(a, env)
+        for kw in e.keywords:
+            if kw.arg in env2:
+                env2[kw.arg] = self.expr(kw.value, env)
+        self.depth += 1
+        try:
+            rets = []
+            self.block(callee.body, env2, rets, callee)
+        finally:
+            self.depth -= 1
+        d = frozenset().union(*rets) if rets else frozenset()
+        if callee.name == self.watch:
+            old = self.hits.get(id(e))
+            self.hits[id(e)] = (self.cur, e, d | (old[2] if old else frozenset()))
+        return d
+
+    def bind(self, t, d, env, weak=False):
+        if isinstance(t, ast.Name):
+            env[t.id] = (env.get(t.id, frozenset()) | d) if weak else d
+        elif isinstance(t, (ast.Tuple, ast.List)):
+            for x in t.elts:
+                self.bind(x, d, env, weak)
+        else:
+            b = pf.base_name(t)
+            if b and b != "self":
+                env[b] = env.get(b, frozenset()) | d
+
+    def block(self, stmts, env, rets, fn):
+        for st in stmts:
+            if isinstance(st, ast.Assign):
+                d = self.expr(st.value, env)
+                for t in st.targets:
+                    self.bind(t, d, env)
+            elif isinstance(st, ast.AugAssign):
+                self.bind(st.target, self.expr(st.value, env), env, weak=True)
+            elif isinstance(st, ast.Return):
+                rets.append(self.expr(st.value, env))
+            elif isinstance(st, ast.If):
+                self.expr(st.test, env)
+                e1, e2 = dict(env), dict(env)
+                self.block(st.body, e1, rets, fn)
+                self.block(st.orelse, e2, rets, fn)
+                for k in set(e1) | set(e2):
+                    env[k] = e1.get(k, frozenset()) | e2.get(k, frozenset())
+            elif isinstance(st, (ast.For, ast.While)):
+                for _ in range(2):
+                    if isinstance(st, ast.For):
+                        self.bind(st.target, self.expr(st.iter, env), env)
+                    e1 = dict(env)
+                    self.block(st.body, e1, rets, fn)
+                    for k in set(e1):
+                        env[k] = env.get(k, frozenset()) | e1[k]
+                self.block(st.orelse, env, rets, fn)
+            elif isinstance(st, ast.Try):
+                self.block(st.body, env, rets, fn)
+                for h in st.handlers:
+                    self.block(h.body, dict(env), rets, fn)
+                self.block(st.orelse, env, rets, fn)
+                self.block(st.finalbody, env, rets, fn)
+            elif isinstance(st, ast.With):
+                self.block(st.body, env, rets, fn)
+            elif isinstance(st, ast.Expr):
+                v = st.value
+                d = self.expr(v, env)
+                if isinstance(v, ast.Call) and isinstance(v.func, ast.Attribute) and isinstance(v.func.value, ast.Name) \
+                        and v.func.value.id != "self":
+                    env[v.func.value.id] = env.get(v.func.value.id, frozenset()) | d
+
+    def run(self, fn):
+        self.cur = pf.qualname(fn)
+        env = {a.arg: frozenset({"rho"}) if a.arg == "rho" else frozenset() for a in fn.args.args[1:]}
+        self.block(fn.body, env, [], fn)
+
+
+def rule_rho_mult_theta(chk, prog):
+    mod, classes = family(prog, "NLDFSettings")
+    for cls in classes:
+        if cls.name == "NLDFSettings":
+            continue
+        r = prog.find_method(mod, cls, "ueg_vector")
+        if r is None:
+            raise core.AnalysisError("%s has no ueg_vector" % cls.name)
+        dp = Deps(prog, mod, cls, "_ueg_rho_mult")
+        dp.run(r[2])
+        for _, (where, node, d) in sorted(dp.hits.items(), key=lambda kv: kv[1][1].lineno):
+            fnode = pf.enclosing_func(node)
+            qn = pf.qualname(fnode) if fnode else where
+            inst = "%s: %s in %s depends on %s" % (cls.name, pf.src(node)[:50], qn, sorted(d))
+            if "feat" in d:
+                chk.violation("rho-mult-theta", ST, qn, pf.src(node), node.lineno,
+                              "for %s the density prefactor returned by %s depends on self.feat_params (%s); "
+                              "rho_mult='expnt' multiplies the density by the exponent given by theta_params alone "
+                              "(ALLOWED_RHO_MULTS), so the reported UEG value carries a per-feature factor that the "
+                              "computed feature does not have" % (cls.name, pf.src(node)[:60], sorted(d)), instance=inst)
+            elif "theta" not in d:
+                chk.violation("rho-mult-theta", ST, qn, pf.src(node), node.lineno,
+                              "for %s the density prefactor returned by %s does not depend on self.theta_params (%s)" % (
+                                  cls.name, pf.src(node)[:60], sorted(d)), instance=inst)
+            else:
+                chk.ok("rho-mult-theta", inst)
+
+
+# ----------------------------------------------------------------------------
 def _analyse_own(chk):
     prog = pf.Program(chk.tree, [ST, FN, TD])
     chk.rule("guarded-param", "constant index beyond the sl_level-independent length of a parameter list is "
@@ -706,6 +959,14 @@ def _analyse_own(chk):
     chk.guard(rule_compose, prog)
     chk.guard(rule_rho_forward, prog)
     chk.guard(rule_emit_order, prog)
+    chk.rule("emit-index", "a flat per-feature list is indexed by a counter that is not reset inside an enclosing "
+                           "emission loop and advances with every appended element")
+    chk.rule("rho-mult-theta", "the rho_mult prefactor of every NLDF ueg_vector depends on theta_params, never on "
+                               "feat_params (dependency sets through _ueg_rho_mult, loops iterated to a fixpoint)")
+    chk.guard(rule_emit_index, prog)
+    chk.guard(rule_rho_mult_theta, prog)
+    chk.floor("emit-index", 3, "SDMXFullSettings.ueg_vector usps[i] + normaliser loops indexing usps/uegs")
+    chk.floor("rho-mult-theta", 5, "VI, VJ, VK and the two delegated calls of VIJ")
     chk.floor("guarded-param", 30, "constant subscripts on parameter lists in the NLDF settings classes (10 of them [2])")
     chk.floor("spec-total", 8, "VI 2, VJ 2, VIJ 3, VK 2 ladders reachable from ueg_vector")
     chk.floor("norm-ueg", 5, "4 normaliser classes + the None convention")
@@ -773,6 +1034,20 @@ def mutants(tree):
           expect="rho-forward"),
         M("FeatureSettings forgets rho for sdmx", ST, "self.sdmx_settings.ueg_vector(rho)", "self.sdmx_settings.ueg_vector()",
           expect="rho-forward"),
+        M("SDMXFull.ueg_vector: running counter replaced by a per-ratio enumerate", ST,
+          "            for n, rdr in self.iterate_l0_terms(ratio):\n                try:\n                    uegvec.append(known_dict[ratio, n, rdr] * rho ** (usps[i] / 3.0))\n                    i += 1\n",
+          "            for i, (n, rdr) in enumerate(self.iterate_l0_terms(ratio)):\n                try:\n                    uegvec.append(known_dict[ratio, n, rdr] * rho ** (usps[i] / 3.0))\n",
+          expect="emit-index"),
+        M("SDMXFull.ueg_vector: counter never advanced", ST,
+          "uegvec.append(known_dict[ratio, n, rdr] * rho ** (usps[i] / 3.0))\n                    i += 1\n",
+          "uegvec.append(known_dict[ratio, n, rdr] * rho ** (usps[i] / 3.0))\n", expect="emit-index"),
+        M("SDMXFull.ueg_vector: counter reset inside the ratio loop", ST,
+          "        i = 0\n        for ratio in self.ratios:\n            for n, rdr in self.iterate_l0_terms(ratio):\n                try:\n                    uegvec.append",
+          "        for ratio in self.ratios:\n            i = 0\n            for n, rdr in self.iterate_l0_terms(ratio):\n                try:\n                    uegvec.append",
+          expect="emit-index"),
+        M("_ueg_rho_mult takes a0 from the first feature parameter set", ST,
+          "rho_mult = _get_ueg_expnt(self.theta_params[0], t0, rho)",
+          "rho_mult = _get_ueg_expnt(self.feat_params[0][0], t0, rho)", expect="rho-mult-theta"),
         M("SDMXFull usps interleaved like the normalisers (ueg_vector left alone)", ST,
           "                usps.append(3 + n)\n        for ratio in self.ratios:\n            for n, rdr in self.iterate_l1_terms(ratio):\n                usps.append(3 + n)",
           "                usps.append(3 + n)\n            for n, rdr in self.iterate_l1_terms(ratio):\n                usps.append(3 + n)",
